@@ -35,9 +35,11 @@ PROPS = {
                 "C06_gradient_nonincrease / C06_gradient_after_any_history: after any sample history from a state with estimate >= 4 and smoothing in [2^-50,1] a drop never raises Gradient's estimate "
                 "(halving, binary64 smoothing, clamps; the side conditions are proved step-invariant); C06_vegas_nonincrease / C06_vegas_after_any_history / C06_vegas_drop_run_monotone: "
                 "from every state satisfying the Vegas safety invariant, after any history, a drop never raises the reported estimate and drop runs are monotone; "
-                "floor reachability within the configured bound is decided by replay + oracle on every run.",
+                "floor reachability with a bound fixed by the configuration: C06_aimd_floor_reached (1 within limit-1 drops), C06_gradient_contracts / C06_gradient_floor_reached "
+                "(est_n <= max(floor, est_0 (1 - s/4)^n), reported = max(min,4) once that is below floor+1), C06_vegas_contracts / C06_vegas_floor_reached (est_n <= max(15/8, est_0 - n s/40), reported 1); "
+                "drop samples that probe instead of updating are outside these run theorems (F19) and decided by replay + oracle.",
   "level_note": "Trusted as C04. Known findings F5 (Gradient built below its queue allowance) and F19 (Vegas frozen by per-sample probing when multiplier*estimate <= 2) are replayed and reported as KNOWN-FINDING.",
-  "technique": "Coq/Flocq theorems for AIMD, Vegas and Gradient non-increase over all histories + differential replay and drop-run oracle for floor reachability",
+  "technique": "Coq/Flocq theorems (non-increase over all histories, geometric / linear contraction to the floor) + differential replay and drop-run oracle",
  },
  "C07": {
   "tests": ["TestC07", "TestC07Concurrent"],
